@@ -5,7 +5,8 @@ Open Scope Z_scope.
 (* plain   : oracle for the cipher = what golib crypto.Decode returns for a copy of [data] ([] when it refuses)
    json_ok : oracle for the JSON layer = msg.ReadMsgInto on that plaintext returns nil
    obs     : 0 DecodeMessageInto returned nil | 1 returned an error | 2 panicked
-   same    : (accepted datagrams built by EncodeMessage) the decoded NatHoleSid equals the one encoded *)
+   same    : false iff the datagram was built by EncodeMessage under the same key and did NOT come back as the
+             NatHoleSid that was encoded (refused, or different) *)
 Inductive dg_case := CDgram (data plain : bytes) (json_ok : bool) (obs : Z) (same : bool).
 
 Definition dg_model (data plain : bytes) : dg_out := dg_decode registered (fun _ _ => plain) data.
@@ -14,6 +15,7 @@ Definition check_dg (c : dg_case) : Z :=
   match c with
   | CDgram data plain json_ok obs same =>
       if obs =? 2 then 40                                           (* a decoder never panics *)
+      else if negb same then 44                                     (* EncodeMessage output must come back equal (any key, incl. the empty one) *)
       else if (dg_iv_len <=? blen data) && negb (blen plain =? blen data - dg_iv_len) then 41
       else match dg_model data plain with
            | DgErr _ _ _ => if obs =? 1 then 0 else 42
